@@ -1165,6 +1165,19 @@ class _Identifiers:
 
     def visitControlLine(self, node):
         self.check_declared(node)
+        if (
+            self.compiler.enable_loop
+            and node.keyword == "for"
+            and not node.isend
+            and "loop" not in self.declared.union(self.locally_declared)
+        ):
+            # the loop is given a loop context when anything inside it
+            # refers to "loop", also from a def or call body that is a
+            # scope of its own; the context lives in this scope
+            loop_variable = LoopVariable()
+            node.accept_visitor(loop_variable)
+            if loop_variable.detected:
+                self.undeclared.add("loop")
 
     def visitCode(self, node):
         if not node.ismodule:
